@@ -42,6 +42,12 @@ func updateParse(
 
 	module, err := rparse.ModuleWithOpts(fileURI, content, options)
 	if err == nil {
+		// The module is about to be shared between the workers of the server. Object
+		// terms sort their keys lazily on first traversal, which is a write that the
+		// encoder used by the linter does not synchronize with: do it now, before any
+		// other goroutine can see the module.
+		ast.WalkNodes(module, func(ast.Node) bool { return false })
+
 		// if the parse was ok, clear the parse errors
 		cache.SetParseErrors(fileURI, []types.Diagnostic{})
 		cache.SetModule(fileURI, module)
